@@ -379,6 +379,19 @@ fn check_float(out: &mut Out, x: f64) {
         let head = s.find(|ch| ch == 'e' || ch == 'E').map(|p| &s[..=p]);
         let head = head.filter(|h| matches!(classify_word(h), WordClass::MantissaE | WordClass::Ident));
         expect_value(out, "float/embedded", &format!("{}{}", long_prefix(head), s), &want);
+        // a comment inside what would be a signed exponent separates: `1e-/**/3` and `1e/**/-3` are `1e` minus 3
+        if let Some(p) = s.find(|ch| ch == 'e' || ch == 'E') {
+            let (hd, rest) = s.split_at(p + 1);
+            if let (Some(sign @ ('+' | '-')), WordClass::MantissaE) = (rest.chars().next(), classify_word(hd)) {
+                if let Ok(d) = rest[1..].parse::<i64>() {
+                    let op: &'static str = if sign == '+' { "+" } else { "-" };
+                    let ast = b(op, Ast::Read(hd.to_string()), c(RV::Int(d)));
+                    expect_tree(out, "float/comment-inside-exponent", &format!("{}{}/**/{}", hd, sign, &rest[1..]), &ast);
+                    expect_tree(out, "float/comment-inside-exponent", &format!("{}/**/{}{}", hd, sign, &rest[1..]), &ast);
+                    expect_tree(out, "float/comment-inside-exponent", &format!("{}{}//c\n{}", hd, sign, &rest[1..]), &ast);
+                }
+            }
+        }
     }
     out.count_n("float renderings", rs.len() as u64);
     out.sample(|| format!("{:?} all denote Float({:?})", rs, x));
